@@ -77,7 +77,7 @@ def run(ctx):
         syn_lines = len(read_ndjson(synp))
         r = tlc(ctx, "Trace_SynSweep", SYN_CFG % synp, "tr_syn", workers=1)
         if not r["ok"]:
-            m = re.search(r'"SYN_MISMATCH_AT_LINE", (\d+)', r["out"])
+            m = re.search(r'"SYN_MISMATCH_AT_LINE"\s*,\s*(\d+)', r["out"])
             if not m:
                 raise Infra("Trace_SynSweep failed:\n" + r["out"][-2000:])
             ln = read_ndjson(synp)[int(m.group(1)) - 1]
